@@ -102,13 +102,17 @@ def build_problem(rng, small=False):
             rng, tdep=(rng.random() < 0.5), max_rings=3, length=0.3,
             gap=wl.choose(rng, ['none', 'flow', 'no_flow']),
             vel=wl.loguniform(rng, 0.5, 5.0), lf=False,
-            regions=(rng.random() < 0.3))
+            regions=(rng.random() < 0.3),
+            bc=wl.choose(rng, ['flowrate', 'outlet_temp', 'delta_temp']))
         names = ['a']
     else:
         P, feats = wl.core_problem(rng, n_ring=2, tdep=(rng.random() < 0.5),
                                    gap=wl.choose(rng, ['none', 'flow']),
                                    empty_frac=0.3, max_rings=3, length=0.3,
-                                   vel_range=(0.5, 5.0), lf_frac=0.1)
+                                   vel_range=(0.5, 5.0), lf_frac=0.1,
+                                   own_power_mesh=0.4,
+                                   bc_kinds=('flowrate', 'outlet_temp',
+                                             'delta_temp'))
         names = list(P['types'])
     feats['pin'] = None
     for nm in names:
@@ -143,6 +147,30 @@ def build_problem(rng, small=False):
         L = P['length']
         P['setup']['axial_plane'] = [float(x) for x in np.round(
             np.sort(rng.uniform(0.05, 0.95, int(rng.integers(1, 4)))) * L, 4)]
+    if rng.random() < 0.6:
+        # data tables at requested heights: on or next to likely planes, in
+        # between planes, and just above the top (DASSH snaps those)
+        L = P['length']
+        ids = [1 + i for i in range(len(P['positions']))]
+        tabs = {}
+        kinds = ['coolant_subchannel', 'duct_mw']
+        if feats['pin']:
+            kinds += ['clad_mw', 'fuel_cl', 'coolant_pin']
+        for j in range(int(rng.integers(1, 3))):
+            zs = [float(np.round(rng.uniform(0.05, 0.95) * L, 5))
+                  for _ in range(int(rng.integers(1, 4)))]
+            if rng.random() < 0.5:
+                zs.append(float(np.round(0.01 * rng.integers(1, int(
+                    L / 0.01)) + wl.choose(rng, [0.0, 2e-4, -3e-4]), 6)))
+            if rng.random() < 0.3:
+                zs.append(float(L + wl.choose(rng, [0.0, 4e-4])))
+            tabs['tab%d' % j] = {
+                'type': wl.choose(rng, kinds),
+                'assemblies': [int(wl.choose(rng, ids))],
+                'axial_positions': sorted(set(zs))}
+        P['setup_sub']['AssemblyTables'] = tabs
+        P['setup_sub']['Dump']['interval'] = None
+        feats['tables'] = [t['type'] for t in tabs.values()]
     feats['scaling'] = P['power'].get('scaling')
     feats['axial_plane'] = bool(P['setup'].get('axial_plane'))
     return P, feats
@@ -241,7 +269,9 @@ def run_history(case, res):
                           results[n] - results[0])))
                          if results[n].shape == results[0].shape
                          else float('nan')), key)
+    res.tag('bc=%s' % '+'.join(sorted(set(k for q in P['positions'] for k in ('flowrate', 'outlet_temp', 'delta_temp') if k in q))))
     res.tag('pin=%s' % feats['pin'])
+    res.tag('assembly_tables=%s' % bool(feats.get('tables')))
     res.tag('hotspot=%s' % bool(feats.get('hotspot')))
     if feats['pin']:
         res.nontrivial(repr(sorted((k, str(v)) for k, v in feats.items())))
